@@ -294,3 +294,262 @@ Proof.
     unfold leaf_ok in L; cbn in L; cbn; unfold resolve_name;
     destruct (find_decl p n') as [d'|]; try discriminate L; destruct (d_kind d'); reflexivity.
 Qed.
+
+(* ------------------------------------------------------------------ assembling the diagram *)
+Lemma NoDup_map_compat {A B} (f : A -> B) l :
+  NoDup (map f l) -> forall x y, In x l -> In y l -> f x = f y -> x = y.
+Proof.
+  induction l as [|a l IH]; simpl; intros N x y Hx Hy E; [tauto|].
+  inversion N; subst. destruct Hx as [->|Hx], Hy as [->|Hy]; auto.
+  - exfalso. apply H1. rewrite E. now apply in_map.
+  - exfalso. apply H1. rewrite <- E. now apply in_map.
+Qed.
+Lemma NoDup_map_NoDup {A B} (f : A -> B) l : NoDup (map f l) -> NoDup l.
+Proof.
+  induction l as [|a l IH]; simpl; intro N; [constructor|].
+  inversion N; subst. constructor; auto. intro H. apply H1. now apply in_map.
+Qed.
+
+Lemma tabs_NoDup suf : forall T, (forall c, NoDup (map f_name (lookup_tab T c))) ->
+  forall c, NoDup (map f_name (lookup_tab (tabs T suf) c)).
+Proof.
+  induction suf as [|d suf IH]; simpl; intros T H c; auto.
+  apply IH. intro c'. rewrite lookup_tab_cons. destruct (Pos.eqb (d_name d) c'); auto.
+  apply class_fields_NoDup.
+Qed.
+
+Lemma wf_order_bases earlier p : wf_order earlier p = true -> forall d, In d p -> NoDup (d_bases d).
+Proof.
+  revert earlier. induction p as [|e p IH]; simpl; intros earlier H d Hd; [tauto|].
+  repeat (apply andb_true_iff in H as [H ?]).
+  destruct Hd as [->|Hd]; eauto. now apply nodupb_NoDup.
+Qed.
+
+Section Build.
+  Variable p : prog.
+  Hypothesis Hwf : wf_prog p = true.
+
+  Let Hparts : wf_order [] p = true /\ nodupb (map f_name (all_fields p)) = true
+               /\ forallb (fun f => wf_field f && leaf_ok p (f_ann f)) (all_fields p) = true.
+  Proof.
+    pose proof Hwf as H. unfold wf_prog in H. repeat (apply andb_true_iff in H as [H ?]). auto.
+  Qed.
+  Let Hnames : NoDup (names_of p).
+  Proof. destruct Hparts as [H _]. now apply wf_order_names in H. Qed.
+  Let Hcompat : compat (all_fields p).
+  Proof.
+    destruct Hparts as [_ [H _]]. apply nodupb_NoDup in H. intros x y. now apply NoDup_map_compat.
+  Qed.
+
+  Lemma tab_correct c : In c (names_of p) -> tab_ok p (tab p) c.
+  Proof.
+    intro Hc. unfold tab. apply (tabs_inv p Hnames Hcompat p [] [] []); auto.
+    - simpl. tauto.
+    - apply Hparts.
+    - simpl. tauto.
+  Qed.
+
+  Lemma direct_base_bases b c : direct_base p b c <-> In b (bases_of p c).
+  Proof.
+    unfold bases_of. destruct (find_decl p c) as [d|] eqn:E.
+    - apply find_decl_In in E as [E1 E2]; auto. subst c. now apply direct_base_decl.
+    - split; [|intros []]. intros [d [H1 [H2 H3]]].
+      assert (find_decl p c = Some d) by (apply find_decl_In; auto). congruence.
+  Qed.
+
+  Lemma bases_NoDup c : NoDup (bases_of p c).
+  Proof.
+    unfold bases_of. destruct (find_decl p c) as [d|] eqn:E; [|constructor].
+    apply find_decl_In in E as [E1 E2]; auto. destruct Hparts as [H _]. eapply wf_order_bases; eauto.
+  Qed.
+
+  Variable cs : list name.
+  Hypothesis Hcs : wf_classes p cs = true.
+
+  Let Hcs_nodup : NoDup cs.
+  Proof. unfold wf_classes in Hcs. apply andb_true_iff in Hcs as [H _]. now apply nodupb_NoDup. Qed.
+  Let Hcs_decl : forall c, In c cs -> In c (names_of p).
+  Proof.
+    unfold wf_classes in Hcs. apply andb_true_iff in Hcs as [_ H]. rewrite forallb_forall in H.
+    intros c Hc. specialize (H c Hc). destruct (find_decl p c) as [d|] eqn:E; [|discriminate].
+    apply find_decl_In in E as [E1 E2]; auto. subst c. now apply in_map.
+  Qed.
+
+  Definition assoc_list : list edge :=
+    flat_map (fun c => flat_map (field_edges cs c) (public_fields (tab p) c)) cs.
+
+  Lemma public_fields_In c x : In c cs ->
+    (In x (public_fields (tab p) c) <-> f_private x = false /\ exists a, ancestor p a c /\ declares p a x).
+  Proof.
+    intro Hc. unfold public_fields. rewrite filter_In, negb_true_iff.
+    rewrite (tab_correct c (Hcs_decl c Hc) x). tauto.
+  Qed.
+
+  Lemma hints_check_ok c : hints_check p cs c = Ok tt.
+  Proof.
+    assert (Hh : forall k, hidden_of p k = []).
+    { intro k. unfold hidden_of. destruct (find_decl p k) as [d|] eqn:E; auto.
+      apply find_decl_In in E as [E _]; auto.
+      unfold wf_prog in Hwf. apply andb_true_iff in Hwf as [_ H]. rewrite forallb_forall in H.
+      specialize (H d E). destruct (d_hidden d); [reflexivity | discriminate]. }
+    unfold hints_check.
+    assert (U : unresolved p c = []).
+    { unfold unresolved. generalize (chain (length p) p c). intro ks.
+      induction ks as [|k ks IH]; cbn [flat_map]; auto. rewrite IH, app_nil_r, Hh.
+      generalize (own_fields p k). intro fs. induction fs as [|f fs IHf]; cbn [flat_map]; auto.
+      rewrite IHf, app_nil_r. generalize (leaf_names (f_ann f)). intro l.
+      induction l as [|n l IHl]; simpl; auto. }
+    rewrite U. reflexivity.
+  Qed.
+
+  Lemma assoc_edges_ok : assoc_edges p cs = Ok assoc_list.
+  Proof.
+    unfold assoc_edges, assoc_list. apply mconcat_ok. intros c Hc. unfold class_edges.
+    assert (G : mconcat (field_edge p cs c) (public_fields (tab p) c)
+                = Ok (flat_map (field_edges cs c) (public_fields (tab p) c))).
+    { apply mconcat_ok. intros x Hx.
+      apply public_fields_In in Hx as [_ [a [_ Hx]]]; auto.
+      apply declares_all in Hx. destruct Hparts as [_ [_ H]]. rewrite forallb_forall in H.
+      specialize (H x Hx). apply andb_true_iff in H as [H1 H2]. now apply field_edge_ok. }
+    destruct (public_fields (tab p) c) eqn:E; [reflexivity|].
+    rewrite hints_check_ok. exact G.
+  Qed.
+
+  Lemma build_eq : build p cs = Ok (mk_graph cs (inh_edges p cs ++ assoc_list)).
+  Proof. unfold build, nodes_of. rewrite assoc_edges_ok. reflexivity. Qed.
+
+  Lemma inh_edges_In e : In e (inh_edges p cs) <->
+    e_kind e = EInh /\ In (e_src e) cs /\ In (e_dst e) cs /\ e_field e = xH /\ direct_base p (e_src e) (e_dst e).
+  Proof.
+    unfold inh_edges. rewrite in_flat_map. split.
+    - intros [c [Hc H]]. apply in_flat_map in H as [b [Hb H]].
+      destruct (mem b cs) eqn:M; [|destruct H]. destruct H as [<-|[]]. simpl.
+      apply mem_In in M. apply direct_base_bases in Hb. auto.
+    - intros [K [Hs [Hd [Hf Hb]]]]. exists (e_dst e). split; auto.
+      apply in_flat_map. exists (e_src e). split; [now apply direct_base_bases|].
+      apply mem_In in Hs. rewrite Hs. left. destruct e; simpl in *; subst; reflexivity.
+  Qed.
+
+  Lemma assoc_list_In e : In e assoc_list <->
+    e_kind e = EAssoc /\ In (e_src e) cs /\ In (e_dst e) cs /\
+    exists a f, ancestor p a (e_src e) /\ declares p a f /\ f_private f = false
+                /\ f_name f = e_field e /\ about (f_ann f) (e_dst e) = true.
+  Proof.
+    unfold assoc_list. rewrite in_flat_map. split.
+    - intros [c [Hc H]]. apply in_flat_map in H as [x [Hx H]].
+      apply public_fields_In in Hx as [Hp [a [Ha Hx]]]; auto.
+      unfold field_edges in H. destruct (target (f_ann x)) as [d|] eqn:T; [|destruct H].
+      destruct (mem d cs) eqn:M; [|destruct H]. destruct H as [<-|[]]. simpl.
+      apply mem_In in M. repeat split; auto. exists a, x. repeat split; auto. now apply about_target.
+    - intros [K [Hs [Hd [a [x [Ha [Hx [Hp [Hn Hab]]]]]]]]]. exists (e_src e). split; auto.
+      apply in_flat_map. exists x. split; [apply public_fields_In; eauto|].
+      unfold field_edges. apply about_target in Hab. rewrite Hab. apply mem_In in Hd. rewrite Hd.
+      left. destruct e; simpl in *; subst; reflexivity.
+  Qed.
+
+  Lemma edges_spec e : In e (inh_edges p cs ++ assoc_list) <-> spec_edge p cs e.
+  Proof.
+    rewrite in_app_iff, inh_edges_In, assoc_list_In. unfold spec_edge.
+    destruct (e_kind e); split.
+    - intros [H|H]; [tauto | destruct H; discriminate].
+    - intros [H1 [H2 [H3 H4]]]. left. auto.
+    - intros [H|H]; [destruct H; discriminate | tauto].
+    - intros [H1 [H2 H3]]. right. auto.
+  Qed.
+
+  Lemma inh_edges_NoDup : NoDup (inh_edges p cs).
+  Proof.
+    unfold inh_edges. apply NoDup_flat_map; auto.
+    - intros c Hc. apply NoDup_flat_map.
+      + apply bases_NoDup.
+      + intros b Hb. destruct (mem b cs); repeat constructor; auto.
+      + intros b b' e _ _ Hne H1 H2.
+        destruct (mem b cs); [|destruct H1]. destruct (mem b' cs); [|destruct H2].
+        destruct H1 as [<-|[]]. destruct H2 as [H2|[]]. inversion H2. congruence.
+    - intros c c' e _ _ Hne H1 H2.
+      apply in_flat_map in H1 as [b [_ H1]]. apply in_flat_map in H2 as [b' [_ H2]].
+      destruct (mem b cs); [|destruct H1]. destruct (mem b' cs); [|destruct H2].
+      destruct H1 as [<-|[]]. destruct H2 as [H2|[]]. inversion H2. congruence.
+  Qed.
+
+  Lemma public_fields_NoDup c : NoDup (map f_name (public_fields (tab p) c)).
+  Proof.
+    unfold public_fields.
+    assert (H : NoDup (map f_name (lookup_tab (tab p) c))).
+    { unfold tab. apply tabs_NoDup. intro c'. unfold lookup_tab. simpl. constructor. }
+    revert H. generalize (lookup_tab (tab p) c). intro l.
+    induction l as [|x l IH]; simpl; intro N; [constructor|].
+    inversion N; subst. destruct (negb (f_private x)); simpl; auto.
+    constructor; auto. intro Hin. apply H1. apply in_map_iff in Hin as [y [Hy1 Hy2]].
+    apply filter_In in Hy2 as [Hy2 _]. rewrite <- Hy1. now apply in_map.
+  Qed.
+
+  Lemma assoc_list_NoDup : NoDup assoc_list.
+  Proof.
+    unfold assoc_list. apply NoDup_flat_map; auto.
+    - intros c Hc. apply NoDup_flat_map.
+      + eapply NoDup_map_NoDup. apply public_fields_NoDup.
+      + intros x Hx. unfold field_edges. destruct (target (f_ann x)); [|constructor].
+        destruct (mem n cs); repeat constructor; auto.
+      + intros x y e Hx Hy Hne H1 H2. apply Hne.
+        apply (NoDup_map_compat f_name _ (public_fields_NoDup c)); auto.
+        unfold field_edges in *.
+        destruct (target (f_ann x)) as [d|]; [|destruct H1]. destruct (mem d cs); [|destruct H1].
+        destruct (target (f_ann y)) as [d'|]; [|destruct H2]. destruct (mem d' cs); [|destruct H2].
+        destruct H1 as [<-|[]]. destruct H2 as [H2|[]]. inversion H2. congruence.
+    - intros c c' e _ _ Hne H1 H2.
+      apply in_flat_map in H1 as [x [_ H1]]. apply in_flat_map in H2 as [y [_ H2]].
+      unfold field_edges in *.
+      destruct (target (f_ann x)) as [d|]; [|destruct H1]. destruct (mem d cs); [|destruct H1].
+      destruct (target (f_ann y)) as [d'|]; [|destruct H2]. destruct (mem d' cs); [|destruct H2].
+      destruct H1 as [<-|[]]. destruct H2 as [H2|[]]. inversion H2. congruence.
+  Qed.
+
+  Lemma edges_NoDup : NoDup (inh_edges p cs ++ assoc_list).
+  Proof.
+    apply NoDup_app_intro.
+    - apply inh_edges_NoDup.
+    - apply assoc_list_NoDup.
+    - intros e H1 H2. apply inh_edges_In in H1 as [K1 _]. apply assoc_list_In in H2 as [K2 _]. congruence.
+  Qed.
+End Build.
+
+(* C17, structure: for every well-formed program and every list of distinct dataclasses of it, construction
+   succeeds, the nodes are the given classes in the given order, no edge occurs twice, and an edge is present
+   exactly when the Spec demands it *)
+Theorem build_meets_spec : forall p cs, wf_prog p = true -> wf_classes p cs = true ->
+  exists g, build p cs = Ok g /\ g_nodes g = cs /\ NoDup (g_edges g) /\
+            forall e, In e (g_edges g) <-> spec_edge p cs e.
+Proof.
+  intros p cs Hp Hc. eexists. split; [apply build_eq; auto|]. simpl. split; auto. split.
+  - now apply edges_NoDup.
+  - intro e. now apply edges_spec.
+Qed.
+
+(* outside the fragment: two names visible under TYPE_CHECKING only, one of them not in the diagram.
+   C1 (module 1; cannot see C2, C3): a1 : Optional["C2"], a2 : List["C3"];  C2(C1);  C3.   Diagram [C1; C2]. *)
+Definition two_unresolved_prog : prog :=
+  [ Build_decl 2 DDataclass [] [Build_fdecl 5 false (Optional (Fwd 3)) true false; Build_fdecl 6 false (Cont KList (Fwd 4)) true false] [3; 4];
+    Build_decl 3 DDataclass [2] [Build_fdecl 7 false (Builtin BInt) true false] [];
+    Build_decl 4 DDataclass [] [Build_fdecl 8 false (Builtin BInt) true false] [] ]%positive.
+Lemma two_unresolved_refuted :
+  build two_unresolved_prog [2; 3]%positive = Raise NameError
+  /\ (exists e, In e (g_edges (spec_graph two_unresolved_prog [2; 3]%positive)) /\ e_kind e = EAssoc)
+  /\ (exists g, build two_unresolved_prog [2; 3; 4]%positive = Ok g).
+Proof.
+  split; [vm_compute; reflexivity|]. split.
+  - exists (mk_edge EAssoc 2 3 5)%positive. split; [vm_compute; auto | reflexivity].
+  - eexists. vm_compute. reflexivity.
+Qed.
+
+(* a program of the fragment, for non-vacuity: C1 { a1 : Optional["C2"] }, C2 { a2 : int }, C3(C1) {}, E1 enum *)
+Definition example_prog : prog :=
+  [ Build_decl 2 DDataclass [] [Build_fdecl 6 false (Optional (Fwd 3)) true false] [];
+    Build_decl 3 DDataclass [] [Build_fdecl 7 false (Builtin BInt) true false; Build_fdecl 8 false (Cont KList (Fwd 5)) false true] [];
+    Build_decl 4 DDataclass [2] [] [];
+    Build_decl 5 DEnum [] [] [] ]%positive.
+Lemma example_in_fragment :
+  wf_prog example_prog = true /\ wf_classes example_prog [4; 3; 2]%positive = true /\
+  build example_prog [4; 3; 2]%positive
+  = Ok (mk_graph [4; 3; 2] [mk_edge EInh 2 4 1; mk_edge EAssoc 4 3 6; mk_edge EAssoc 2 3 6])%positive.
+Proof. repeat split; vm_compute; reflexivity. Qed.
